@@ -543,6 +543,12 @@ func (p *Parser) ParseSubroutineDeclaration() (*ast.SubroutineDeclaration, error
 		if !p.ExpectPeek(token.RIGHT_PAREN) {
 			return nil, errors.WithStack(UnexpectedToken(p.peekToken, "RIGHT_PAREN"))
 		}
+		// Keep the comment placed before the closing parenthesis
+		if len(s.Parameters) > 0 {
+			SwapLeadingTrailing(p.curToken, s.Parameters[len(s.Parameters)-1].Meta)
+		} else {
+			SwapLeadingTrailing(p.curToken, s.Name.Meta)
+		}
 	}
 
 	// Custom subroutines might be returning a type
